@@ -230,7 +230,11 @@ def _run_hyp_shard(args):
 
 def _hyp_campaign(mod, sub: Hyp, tier, seed, shard, nshards, part: Part, known_entries, matchers):
     import hypothesis
-    from hypothesis import HealthCheck, Phase, given, settings
+    from hypothesis import HealthCheck, Phase, Verbosity, given, settings
+    from hypothesis.internal.conjecture import engine as _engine
+
+    # Hypothesis' own hard cap on shrinking time is 5 minutes; the quick tier must stay quick.
+    _engine.MAX_SHRINKING_SECONDS = 20 if tier == "quick" else 240
 
     n = max(1, sub.examples // nshards)
     shard_seed = seed * 1000 + shard
@@ -293,6 +297,7 @@ def _hyp_campaign(mod, sub: Hyp, tier, seed, shard, nshards, part: Part, known_e
             phases=phases,
             suppress_health_check=[HealthCheck.too_slow, HealthCheck.data_too_large, HealthCheck.large_base_example],
             print_blob=False,
+            verbosity=Verbosity.quiet,
         )
         try:
             if sub.stateful:
